@@ -520,6 +520,10 @@ class Spec:
             s.deliver(a[1], a[2], a[3])
         elif a[0] == "done":
             s.complete(a[1], a[2])
+        elif a[0] == "burst":
+            # many events in a row (only used by the long runs, never offered to the BFS)
+            for _ in range(a[3]):
+                s.deliver(a[1], a[2], None)
         else:  # pragma: no cover
             raise HarnessError(a)
 
@@ -705,12 +709,52 @@ def _bfs_chunk(chunk):
     return t
 
 
+def long_histories(n, debug=False):
+    """one long run per place where events can pile up: n events buffered behind ONE blocking command
+    (the BFS bounds the number of events, not the property: 'every incoming event exactly once')"""
+    S = ["ev", "S"]
+    return [
+        [["topo", "single", debug], ["ev", "D", {"L": "B"}, None], ["burst", "D", {"L": ""}, n], ["done", "L:e0:0", None]],
+        [["topo", "single", debug], ["ev", "D", {"L": "B"}, None], ["burst", "F", {"L": ""}, n], ["done", "L:e0:0", None]],
+        # the tunnel parent waits / its child waits
+        [["topo", "tunnel", debug], S + [{"C": ""}, 0], ["ev", "D", {"P": "B", "C": ""}, None], ["burst", "Y", {"C": ""}, n], ["done", "P:e1:0", None]],
+        [["topo", "tunnel", debug], S + [{"C": ""}, 0], ["ev", "D", {"P": "", "C": "B"}, None], ["burst", "D", {"P": "", "C": ""}, n], ["done", "C:e1:0", None]],
+        # events buffered by TunnelLayer._event_queue during the handshake, which itself waits for a command
+        [["topo", "tunnel", debug], S + [{"C": ""}, 1], ["burst", "Y", {"C": ""}, n], ["ev", "D", {"P": "B"}, None], ["burst", "Y", {"C": ""}, n], ["done", "P:e%d:0" % (n + 1), None]],
+        [["topo", "tunnel_open", debug], S + [{"C": ""}, None], ["ev", "D", {"C": "O"}, None], ["burst", "Y", {"C": ""}, n], ["done", "T:open0", None]],
+        [["topo", "mux", debug], S + [{"A": "", "B": ""}, None], ["ev", "D", {"M": "B", "A": ""}, None], ["burst", "Y", {"M": "", "B": ""}, n], ["done", "M:e1:0", None]],
+        [["topo", "mux", debug], S + [{"A": "", "B": ""}, None], ["ev", "D", {"M": "", "A": "B"}, None], ["burst", "D", {"M": "", "A": ""}, n], ["done", "A:e1:0", None]],
+        # undecided NextLayer with its ask outstanding: everything is replayed to the chosen child
+        [["topo", "nextlayer", debug], S + [{"C": ""}, 0], ["ev", "D", {"C": ""}, None], ["burst", "F", {"C": ""}, n], ["done", "NL:ask0", 1]],
+        [["topo", "tunnel_nextlayer", debug], S + [{"C": ""}, None], ["ev", "D", {"C": ""}, None], ["burst", "F", {"C": ""}, n], ["done", "NL:ask0", 1]],
+    ]
+
+
+def long_runs(t: Tally, sizes):
+    spec = make_spec("replay")
+    for n in sizes:
+        for hist in long_histories(n):
+            s = spec.build()
+            done = []
+            for a in hist:
+                spec.apply(s, a)
+                done.append(a)
+                t.transitions += a[3] if a[0] == "burst" else 1
+                spec.check(s, done, t)
+            t.executions += 1
+            t.add("long_runs")
+
+
 def run(ctx):
     global _TIER
     _TIER = ctx.tier
     spec = make_spec(ctx.tier)
+    sizes = ctx.pick([100, 1000], [100, 1000, 5000])
+    long_runs(ctx.tally, sizes)
+    ctx.log("long runs done: %s events buffered behind one blocking command, %d stacks" % (sizes, len(long_histories(1))))
     ctx.bounds = {"events_after_start_per_topology": spec.n, "programs_per_event": spec.progs, "topologies": spec.topos,
-                  "proxy_debug": spec.debugs, "depth": "unbounded (every history runs until all events are delivered and nothing is outstanding)"}
+                  "proxy_debug": spec.debugs, "depth": "unbounded (every history runs until all events are delivered and nothing is outstanding)",
+                  "long_runs_events_buffered_behind_one_command": sizes}
     pre = _prefixes(spec, ctx.tally)
     ctx.log("%d prefixes of %d actions; one full BFS below each" % (len(pre), PREFIX_LEN))
     par.pmap_tally(_bfs_chunk, pre, ctx.tally, nchunks=min(len(pre), 16 * 8))
